@@ -214,6 +214,7 @@ def narrowing(run, fx):
               "the engine reports the guarded cast of the control crate")
     res = intervals.results(fx)
     sites = [x for x in res["sites"] if x["kind"] == "narrowing"]
+    sites += [x for x in intervals.results(fx, "temporal_capi")["sites"] if x["kind"] == "narrowing"]
     run.analysed["narrowing_casts"] = len(sites)
     if len(sites) < 100:
         run.anchor_missing(rule, "coverage", "only %d numeric casts analysed (expected >= 100)" % len(sites))
